@@ -131,10 +131,21 @@ def run_cfg(chk, facts, cfg):
                 chk.saw(facts, fn, paths=len(ps))
                 oks = [p for p in ps if p.is_ret()]
                 probs = []
-                if len(ps) != 1 or len(oks) != 1 or oks[0].guard:
-                    probs.append('%d paths / guarded merge (a merge must not branch on its operands)' % len(ps))
-                else:
-                    res = oks[0].ret if mode == 'value' else oks[0].effects.get('a')
+                if not oks or len(oks) != len(ps):
+                    probs.append('%d paths, %d returning' % (len(ps), len(oks)))
+                for pth in oks:
+                    res = pth.ret if mode == 'value' else pth.effects.get('a')
+                    # equalities the path assumes about an operand (e.g. `rhs.count == 0`) are facts on that path
+                    eqs = {}
+                    for atom, pol in pth.guard:
+                        if pol and atom[0] == 'op' and atom[1] == 'eq':
+                            x, y = atom[2]
+                            if x[0] == 'sym' and T.is_const(y):
+                                eqs[x] = y
+                            elif y[0] == 'sym' and T.is_const(x):
+                                eqs[y] = x
+                    if eqs:
+                        res = T.subst(res, eqs)
                     if any(not nf.is_zero(nf.of_term(x)) for x in comps_of(res)):
                         # compensation of the result must be real-invariant 0 given operands with 0
                         probs.append('compensation of the merged state is not real-invariant 0')
@@ -143,7 +154,7 @@ def run_cfg(chk, facts, cfg):
                         probs.append('result has %d statistics, operands %d' % (len(vr), len(va)))
                     else:
                         for i, (r, x, y) in enumerate(zip(vr, va, vb)):
-                            if not nf.term_equal(r, T.op('add', x, y)):
+                            if not nf.term_equal(r, T.subst(T.op('add', x, y), eqs) if eqs else T.op('add', x, y)):
                                 probs.append('statistic #%d of the result is %s, not the sum of the operands\' statistic #%d' % (i, T.show(r)[:100], i))
                 chk.ob(key, 'E3+E4 homomorphism', '%s of two %s states adds every statistic component-wise (field coverage)' % (label, name), not probs, '; '.join(probs[:3]), where,
                        sample={'type': name, 'merge': label, 'statistics': len(va)})
